@@ -101,6 +101,14 @@ def doc_paths(mods):
     return sorted(m for m, d in mods.items() if not d["generated"] and not any(c.startswith("_") for c in m.split(".")))
 
 
+# The hand-written public API documented at the pinned commit (docs/gen_ref_pages.py renders one reference page per module, mkdocstrings
+# lists these members).  A module-level __all__ may hide NEW helpers, it must not make one of these names disappear.
+DOCUMENTED = {"AccountReplySequenceStart", "CHAR_MAX", "EoReader", "EoWriter", "INT_MAX", "InitSequenceStart", "Packet", "PacketSequencer",
+              "PingSequenceStart", "ProtocolEnumMeta", "SHORT_MAX", "SequenceStart", "SerializationError", "THREE_MAX", "decode_number",
+              "decode_string", "deinterleave", "encode_number", "encode_string", "flip_msb", "interleave", "server_verification_hash",
+              "swap_multiples"}
+
+
 def exports(mods):
     """(name, home subpackage, defining module) for every public definition a subpackage exports, and every generated class."""
     out = []
@@ -110,7 +118,7 @@ def exports(mods):
             continue
         defs = [s["name"] for s in d["stmts"] if s["k"] == "def" and not s["name"].startswith("_")]
         if d["hasall"]:
-            defs = [x for x in defs if x in d["all"]]
+            defs = [x for x in defs if x in d["all"] or (x in DOCUMENTED and not d["generated"])]
         if d["generated"]:
             # home = the public counterpart of the generated package
             pub = ".".join(c for c in comps[:-1] if c != "_generated")
